@@ -7,20 +7,22 @@ WT=/tmp/wt/verify_$$
 git -C /repo worktree add --detach $WT HEAD >/dev/null 2>&1 || exit 3
 cleanup() { git -C /repo worktree remove --force $WT >/dev/null 2>&1; }
 trap cleanup EXIT
-cp $D/demo_test.go $WT/zz_seeded_test.go
-( cd $WT && timeout 120 go test -vet=off -count=1 -run TestSeeded . >/tmp/seed_base.log 2>&1 ); BASE=$?
+DEMO=$WT/zz_seeded_test.go; PKG=.
+if head -3 $D/demo_test.go | grep -q "^package main"; then DEMO=$WT/cmd/gmars/zz_seeded_test.go; PKG=./cmd/gmars; fi
+cp $D/demo_test.go $DEMO
+( cd $WT && timeout 120 go test -vet=off -count=1 -run TestSeeded $PKG >/tmp/seed_base_$$.log 2>&1 ); BASE=$?
 git -C $WT apply $D/patch.diff || { echo "PATCH-DOES-NOT-APPLY"; exit 3; }
-( cd $WT && go build . ./cmd/gmars >/tmp/seed_build.log 2>&1 ) || { echo "DOES-NOT-BUILD"; exit 3; }
-( cd $WT && timeout 120 go test -vet=off -count=1 -run TestSeeded . >/tmp/seed_mut.log 2>&1 ); MUT=$?
-rm $WT/zz_seeded_test.go
-( cd $WT && timeout 300 go test -vet=off -count=1 . >/tmp/seed_suite.log 2>&1 ); SUITE=$?
+( cd $WT && go build . ./cmd/gmars >/tmp/seed_build_$$.log 2>&1 ) || { echo "DOES-NOT-BUILD"; exit 3; }
+( cd $WT && timeout 120 go test -vet=off -count=1 -run TestSeeded $PKG >/tmp/seed_mut_$$.log 2>&1 ); MUT=$?
+rm $DEMO
+( cd $WT && timeout 300 go test -vet=off -count=1 . >/tmp/seed_suite_$$.log 2>&1 ); SUITE=$?
 echo "demo on original: exit $BASE (want 0); demo with change: exit $MUT (want != 0); existing suite with change: exit $SUITE (want 0)"
 if [ $BASE -ne 0 ] || [ $MUT -eq 0 ] || [ $SUITE -ne 0 ]; then echo "NOT-CONFIRMED"; exit 4; fi
 START=$(date +%s)
-VERIF_REPO=$WT /verif/bin/gosmt check -property $P -tier $TIER > /tmp/seed_check.log 2>&1; RC=$?
+VERIF_REPO=$WT /verif/bin/gosmt check -property $P -tier $TIER > /tmp/seed_check_$$.log 2>&1; RC=$?
 END=$(date +%s)
 echo "check $P ($TIER) exit $RC in $((END-START)) s"
-grep -m3 "^VIOLATION\|^INCONCLUSIVE" /tmp/seed_check.log | cut -c1-300
-grep -A1 -m1 "^VIOLATION" /tmp/seed_check.log | tail -1 | cut -c1-300
-tail -1 /tmp/seed_check.log | cut -c1-200
-exit $RC
+grep -m3 "^VIOLATION\|^INCONCLUSIVE" /tmp/seed_check_$$.log | cut -c1-300
+grep -A1 -m1 "^VIOLATION" /tmp/seed_check_$$.log | tail -1 | cut -c1-300
+tail -1 /tmp/seed_check_$$.log | cut -c1-200
+cp /tmp/seed_check_$$.log $D/check.log 2>/dev/null; rm -f /tmp/seed_*_$$.log; exit $RC
